@@ -544,6 +544,11 @@ static int read_taskinfo(void *arg)
 
 			while (*endp != '\n') {
 				int tid = strtol(tids_str, &endp, 10);
+
+				if (nr_tid >= info->nr_tid) {
+					free(tids);
+					goto out;
+				}
 				tids[nr_tid++] = tid;
 
 				if (*endp != ',' && *endp != '\n') {
